@@ -789,11 +789,26 @@ def layout_api(rng, name):
         depf.enum("Flavor", "FLAVOR_UNSPECIFIED", "SWEET")
         api.add(depf, target=False, synth=True)
         tags.add("dependency-file")
+    # dependency-only files in ANCESTOR packages of the target package (google/cloud/common_resources.proto for a
+    # google.cloud.<name>.<version> API): they are dependencies like any other
+    anc = []
+    if nns >= 1 and rng.random() < 0.6:
+        for depth in range(nns, 0, -1):
+            if depth != nns and rng.random() < 0.5:
+                continue
+            apkg = ".".join(ns[:depth])
+            af = File(f"{apkg.replace('.', '/')}/ancestor_bits{depth}.proto", apkg, deps=[])
+            am = af.message(f"AncestorBit{depth}")
+            am.field("id", "string")
+            af.enum(f"AncestorKind{depth}", f"ANCESTOR_KIND{depth}_UNSPECIFIED", f"AK{depth}_ONE")
+            api.add(af, target=False, synth=True)
+            anc.append((af, apkg, depth))
+        tags.add("dependency-file-in-ancestor-package")
     nfiles = rng.randint(1, 4) if ver else 1
     names = rng.sample(ODD_FILE_NAMES, nfiles)
     files = []
     for i, fn in enumerate(names):
-        deps = list(STD_DEPS) + ([depf.pb.name] if depf else []) + [x.pb.name for x in files]
+        deps = list(STD_DEPS) + ([depf.pb.name] if depf else []) + [a.pb.name for a, _, _ in anc] + [x.pb.name for x in files]
         f = File(f"{dirp}/{fn}.proto", pkg, deps=deps)
         tags.add("fname:" + fn)
         kind = rng.choice(["types", "types", "both", "service-only" if files else "both", "empty" if files else "types"])
@@ -805,6 +820,9 @@ def layout_api(rng, name):
             if depf and rng.random() < 0.7:
                 m.field("thing", f".vpdep.{name}dep.v1.Thing")
                 m.field("flavor", f"enum:.vpdep.{name}dep.v1.Flavor")
+            for a, apkg, depth in anc:
+                if rng.random() < 0.5:
+                    m.field(f"bit{depth}", f".{apkg}.AncestorBit{depth}")
             if files and files[0].pb.message_type:
                 m.field("prev", P + "." + files[0].pb.message_type[0].name)
             f.enum(f"E{i}", f"E{i}_UNSPECIFIED", f"E{i}_A")
@@ -1697,7 +1715,11 @@ def respath_api(rng, name, npat=36):
     ver = "v1"
     pkg = f"vp.{name}.{ver}"
     P = "." + pkg
-    f = File(f"vp/{name}/{ver}/{name}.proto", pkg, deps=list(STD_DEPS))
+    # resources declared in an imported file of ANOTHER package (a shared resources file) and reached by their type string only
+    dpkg = f"vpres.{name}shared"
+    depf = File(f"vpres/{name}shared/resources.proto", dpkg, deps=[x for x in STD_DEPS if "resource" in x])
+    api.add(depf, target=False, synth=True)
+    f = File(f"vp/{name}/{ver}/{name}.proto", pkg, deps=list(STD_DEPS) + [depf.pb.name])
     api.add(f)
     q = f.message("Req")
     q.field("name", "string")
@@ -1735,7 +1757,7 @@ def respath_api(rng, name, npat=36):
         pat, used, form = rand_pattern(rng)
         tn = f"R{chr(97 + i // 26)}{chr(97 + i % 26)}Thing"
         rtype = f"{name}.googleapis.com/{tn}"
-        how = rng.choice(["message", "message", "definition_ref", "definition_child"])
+        how = rng.choice(["message", "message", "definition_ref", "definition_child", "dep_definition_ref", "dep_message_ref"])
         extra = []
         if rng.random() < 0.3:
             p2, _, _ = rand_pattern(rng)
@@ -1745,6 +1767,14 @@ def respath_api(rng, name, npat=36):
             m.resource(rtype, pat, *extra)
             m.field("name", "string")
             q.field(f"f_{i}", P + "." + tn)
+        elif how == "dep_definition_ref":
+            depf.resource_definition(rtype, pat, *extra)
+            q.field(f"ref_{i}", "string", ref=rtype)
+        elif how == "dep_message_ref":
+            dm = depf.message(tn)
+            dm.resource(rtype, pat, *extra)
+            dm.field("name", "string")
+            q.field(f"ref_{i}", "string", ref=rtype)
         else:
             f.resource_definition(rtype, pat, *extra)
             if how == "definition_ref":
